@@ -736,7 +736,8 @@ func main() {
 		"Each source is preprocessed by cmd.Cmd.Main(-m -w -f ARG); 1 in 8 groups of programs is passed as a directory argument (EvalDir; three files, at most one of class macro: the files of a directory are one interpreter session and a macro is defined once). The written file must parse, have the expected imports/declarations (position-insensitive AST dump), "+
 		"compile and print the same output as the expected program (libraries batched into one binary; a few true `package main` programs built as executables). "+
 		"File layout (2/3 of the programs): items separated by one, two or three newlines; the last item is followed by a blank line, one newline, NOTHING (last byte of the file is not a newline: the line reader delivers the last chunk together with io.EOF), spaces, a line/block/same-line comment without final newline, or a semicolon. "+
-		"Non-trivial: >= 8 collected declarations of >= 3 kinds and non-empty program output; distinct by SHA-256 of the source. corpus/C39 (exact inputs of findings) runs first.")
+		"Non-trivial: >= 8 collected declarations of >= 3 kinds and non-empty program output; distinct by SHA-256 of the source. corpus/C39 (exact inputs of findings) runs first. "+
+		"Multi-file histories (history.go; 8 quick / 64 thorough): one directory and ONE Cmd through 2-4 runs (Cmd.Main -m -w [-f] DIR, EvalDir, EvalFilesAndDirs and EvalFile in shuffled order) with sources added between runs, hand-made outputs that exist already (skipped without -f, overwritten with -f), sources with a rejected chunk between good ones; after every run each output that had to be left alone is byte-identical and each written output has the imports/declarations of ITS OWN source; final outputs also go to the compiled-Go oracle.")
 	wd := vh.NewWatchdog(rep, 10*time.Minute)
 	wd.Beat("start")
 	t0 := time.Now()
@@ -936,6 +937,17 @@ func main() {
 	}
 
 	phase("preprocessing done")
+	// ---- multi-file histories on one Cmd (history.go): outputs that exist already, -f, re-runs, failing files
+	nhist, maxHistUnits := 8, 16
+	if a.Thorough() {
+		nhist, maxHistUnits = 64, 96
+	}
+	histUnits := runHistories(a, rep, wd, nhist, size/2)
+	if len(histUnits) > maxHistUnits {
+		histUnits = histUnits[:maxHistUnits]
+	}
+	rep.Extra["histories"] = nhist
+	phase("histories done")
 	// ---- per program: oracles 1 and 3, encoding
 	header := "From Coq Require Import List NArith ZArith Bool.\nFrom Verif Require Import Common.GoStr C39.Model.\nImport ListNotations.\nOpen Scope Z_scope."
 	cw := vh.NewCases(a, header, "case", "mismatches", 18)
@@ -1059,6 +1071,7 @@ func main() {
 	}
 	cw.Close()
 
+	libUnits = append(libUnits, histUnits...)
 	phase("ast oracles + encoding done")
 	// ---- oracle 2: compile and run
 	const per = 150
